@@ -128,6 +128,11 @@ impl Property for C07 {
             v.push(Case::Two { bk, r1: Num(N::from(1u32)), r2: Num(q - 1u32) });
             v.push(Case::Two { bk, r1: Num(N::from(5u32)), r2: Num(N::from(7u32)) });
             v.push(Case::Two { bk, r1: Num(N::from(5u32)), r2: Num(N::from(5u32)) });
+            v.push(Case::Two { bk, r1: Num(N::from(5u32)), r2: Num(N::zero()) });
+            v.push(Case::Two { bk, r1: Num(N::zero()), r2: Num(N::from(5u32)) });
+            v.push(Case::Two { bk, r1: Num(N::from(1u32)), r2: Num(N::from(7u32)) });
+            v.push(Case::Two { bk, r1: Num(N::from(7u32)), r2: Num(N::from(1u32)) });
+            v.push(Case::Two { bk, r1: Num(N::from(5u32)), r2: Num(q - 5u32) });
         }
         v
     }
